@@ -569,3 +569,48 @@ twin("c18-twin-locals-dict-copy", "C18", (TALES, "\t\tself.locals = self.locals.
 
 twin("c20-twin-log-class-attr", "C20", (GEXC, "    exceptionclass = type(exception).__name__", "    exceptionclass = exception.__class__.__name__"))
 twin("c10-twin-cachename-local", "C10", (DIR, "            statval = self.vfs.stat(self.cachename)\n", "            name = self.cachename\n            statval = self.vfs.stat(name)\n"))
+
+# --- C08 merge / .cap / Host=+ (R08c-R08f)
+_HIDE = '''                    hidden = fileentriesdict[linkentry.selector]
+                    if hidden in self.fileentries:
+                        self.fileentries.remove(hidden)
+'''
+fault("c08-hide-twice-raises", "C08", "R08c", (UMN, _HIDE, "                    self.fileentries.remove(fileentriesdict[linkentry.selector])\n"))
+fault("c08-hide-pops-index", "C08", "R08c", (UMN, _HIDE, "                    hidden = fileentriesdict.pop(linkentry.selector)\n                    if hidden in self.fileentries:\n                        self.fileentries.remove(hidden)\n"))
+fault("c08-hide-by-selector", "C08", "R08c", (UMN, _HIDE, "                    self.fileentries = [e for e in self.fileentries if e.selector != linkentry.selector]\n"))
+fault("c08-merge-also-appends", "C08", "R08c", (UMN, "                    self.mergeentries(fileentriesdict[linkentry.selector], linkentry)\n", "                    self.mergeentries(fileentriesdict[linkentry.selector], linkentry)\n                    self.fileentries.append(linkentry)\n"))
+fault("c08-nomerge-dropped", "C08", "R08c", (UMN, "            if not linkentry.getneedsmerge():\n                self.fileentries.append(linkentry)\n                continue", "            if not linkentry.getneedsmerge():\n                continue"))
+fault("c08-merge-wrong-way", "C08", "R08c", (UMN, "self.mergeentries(fileentriesdict[linkentry.selector], linkentry)", "self.mergeentries(linkentry, fileentriesdict[linkentry.selector])"))
+twin("c08-twin-hide-try", "C08", (UMN, _HIDE, "                    try:\n                        self.fileentries.remove(fileentriesdict[linkentry.selector])\n                    except ValueError:\n                        pass\n"))
+twin("c08-twin-index-comprehension", "C08", (UMN, "        fileentriesdict = {}\n        for entry in self.fileentries:\n            fileentriesdict[entry.selector] = entry\n", "        fileentriesdict = {entry.selector: entry for entry in self.fileentries}\n"))
+twin("c08-twin-merged-append-branches", "C08", (UMN, "            if not linkentry.getneedsmerge():\n                self.fileentries.append(linkentry)\n                continue\n            if linkentry.selector in fileentriesdict:", "            if not linkentry.getneedsmerge() or linkentry.selector not in fileentriesdict:\n                self.fileentries.append(linkentry)\n                continue\n            if True:"))
+fault("c08-merge-unset-fields", "C08", "R08d", (UMN, "            if getattr(new, field) is not None:\n                setattr(old, field, getattr(new, field))", "            setattr(old, field, getattr(new, field))"))
+fault("c08-merge-no-num", "C08", "R08d", (UMN, '["selector", "type", "name", "host", "port", "num"]', '["selector", "type", "name", "host", "port"]'))
+fault("c08-merge-no-ea", "C08", "R08d", (UMN, "            old.setea(field, new.getea(field))", "            pass"))
+fault("c08-cap-dash-not-hidden", "C08", "R08e", (UMN, 'if capinfo[0].gettype() == "X" or capinfo[0].gettype() == "-":', 'if capinfo[0].gettype() == "X":'))
+fault("c08-cap-not-merged", "C08", "R08e", (UMN, "                    self.mergeentries(fileentry, capinfo[0])", "                    pass"))
+fault("c08-cap-ioerror-escapes", "C08", "R08e", (UMN, "        except IOError:  # Ignore no capfile situation\n            pass", "        except KeyError:\n            pass"))
+fault("c08-host-plus-literal", "C08", "R08f", (UMN, '                if line[5:] != "+":\n                    entry.sethost(line[5:])', "                entry.sethost(line[5:])"))
+fault("c08-port-plus-literal", "C08", "R08f", (UMN, '                if line[5:] != "+":\n                    try:  # Don\'t crash if we can\'t parse the number\n                        entry.setport(int(line[5:]))', '                if line[5:] != "-":\n                    try:  # Don\'t crash if we can\'t parse the number\n                        entry.setport(int(line[5:]))'))
+
+# --- content-derived partial operations (R03i), third-party parser exceptions (R03e)
+GMAP = "pygopherd/handlers/gophermap.py"
+ZIPF = "pygopherd/handlers/ZIP.py"
+fault("c03-linkfile-type-index", "C03", "R03i", (UMN, "                if len(line) > 5:  # Don't crash on a Type= line without a type\n                    entry.settype(line[5])", "                entry.settype(line[5])"))
+fault("c03-linkfile-port-int", "C03", "R03i", (UMN, "                    try:  # Don't crash if we can't parse the number\n                        entry.setport(int(line[5:]))\n                    except ValueError:\n                        pass", "                    entry.setport(int(line[5:]))"))
+fault("c03-gophermap-empty-selector", "C03", "R03i", (GMAP, 'if selector[0:1] != "/" and selector[0:4] != "URL:":', 'if selector[0] != "/" and selector[0:4] != "URL:":'))
+fault("c03-gophermap-no-type", "C03", "R03i", (GMAP, "                    if not args[0]:\n                        # No type character in front of the first tab.\n                        continue\n", ""))
+fault("c03-gophermap-port-int", "C03", "R03i", (GMAP, "                        try:  # Don't crash if we can't parse the number\n                            entry.port = int(args[3])\n                        except ValueError:\n                            pass", "                        entry.port = int(args[3])"))
+twin("c03-twin-gophermap-type-slice", "C03", (GMAP, "                    if not args[0]:\n                        # No type character in front of the first tab.\n                        continue\n", "                    if len(args[0]) < 1:\n                        continue\n"))
+fault("c03-badzip-escapes", "C03", "R03e", (ZIPF, "        try:\n            self.zip = zipfile.ZipFile(self.zipfd)\n        except zipfile.BadZipFile as e:\n            # Looked like an archive to is_zipfile(), but is damaged.\n            self.zipfd.close()\n            raise OSError(errno.EINVAL, str(e), self.zipfilename) from e\n", "        self.zip = zipfile.ZipFile(self.zipfd)\n"))
+
+# --- R12c regular-file evidence before open()
+GE = "pygopherd/gopherentry.py"
+fault("c12-sidecar-fifo", "C12", "R12c", (GE, "            if not vfs.isfile(selector + extension):\n                # Usually there is no such file; a FIFO would block forever.\n                continue\n", ""))
+fault("c12-linkfile-fifo", "C12", "R12c", (UMN, "        if not self.vfs.isfile(filename):\n            # Nothing to read, and opening a FIFO would block forever.\n            raise FileNotFoundError(filename)\n", ""))
+fault("c12-gophermap-no-isfile", "C12", "R12c", (GMAP, 'and self.vfs.isfile(self.getselector() + "/gophermap")', 'and self.vfs.exists(self.getselector() + "/gophermap")'))
+twin("c12-twin-sidecar-isfile-local", "C12", (GE, "            if not vfs.isfile(selector + extension):\n                # Usually there is no such file; a FIFO would block forever.\n                continue\n", "            sidecar = selector + extension\n            if not vfs.isfile(sidecar):\n                continue\n"))
+
+fault("c05-mbox-off-by-one", "C05", "R05d", (MBOX, "self.genargsselector(self.getargflag() + str(index))", "self.genargsselector(self.getargflag() + str(index - 1))"))
+twin("c05-twin-mbox-fstring", "C05", (MBOX, "self.genargsselector(self.getargflag() + str(index))", 'self.genargsselector(f"{self.getargflag()}{index}")'))
+fault("c05-mbox-parse-other-flag", "C05", "R05d", (MBOX, 'pattern = "^" + self.getargflag() + r"(\\d+)$"', 'pattern = "^/MESSAGE/" + r"(\\d+)$"'))
